@@ -369,8 +369,19 @@ func rulePattern(c *Ctx) *RuleResult {
 		gc := newGuardCtx(br)
 		nAdd := 0
 		forEachInstr(br, func(ins ssa.Instruction) {
-			call, ok := ins.(ssa.CallInstruction)
-			if !ok || !calleeNamedCI(call, "add") {
+			isAddition := false
+			if call, ok := ins.(ssa.CallInstruction); ok && calleeNamedCI(call, "add") {
+				isAddition = true
+			}
+			if st, ok := ins.(*ssa.Store); ok {
+				// a word of the set written directly
+				if ia, ok := st.Addr.(*ssa.IndexAddr); ok {
+					if _, tn, ok := namedOf(ia.X.Type()); ok && tn == "byteSet" {
+						isAddition = true
+					}
+				}
+			}
+			if !isAddition {
 				return
 			}
 			nAdd++
